@@ -15,6 +15,7 @@ pub mod codecs;
 pub mod derive;
 pub mod typed;
 pub mod accessors;
+pub mod entry;
 pub mod acc_gen;
 pub mod typed_tables;
 
@@ -77,6 +78,10 @@ pub fn run_case(stage: &str, case: &Value, seed: u64) -> Outcome {
         "codecs" => codecs::run(case, seed),
         "derive" => derive::run(case, seed),
         "typed" => typed::run(case, seed),
+        "ep_deb822" => entry::run_deb822(case, seed),
+        "ep_rel" => entry::run_rel(case, seed),
+        "ep_typed" => entry::run_typed(case, seed),
+        "ep_pgp" => entry::run_pgp(case, seed),
         "rel_lossy_rt" => relsat::run_lossy_rt(case, seed),
         _ => panic!("unknown stage {}", stage),
     }
